@@ -4982,6 +4982,7 @@ class PyCdlib:
                                      self.logical_block_size, True, False,
                                      self.xa, file_mode, time.time())
                 num_bytes_to_add += self._add_child_to_dr(fake_dir_rec)
+                num_bytes_to_add += self._update_rr_ce_entry(fake_dir_rec)
 
                 # The fake dir record doesn't get an entry in the path table
                 # record.
@@ -5211,6 +5212,7 @@ class PyCdlib:
                 if cl.children:
                     raise pycdlibexception.PyCdlibInvalidISO('Parent link should have no children!')
                 num_bytes_to_remove += self._remove_child_from_dr(cl, clindex)
+                num_bytes_to_remove += self._remove_rr_ce_entry(cl)
 
                 # We do not remove additional space from the PVD for the
                 # child_link record because it is a 'fake' record that has no
